@@ -1320,7 +1320,7 @@ def _direct_shard(shard: T.Tuple[str, T.Any], ev: Evidence, fails: T.List[Failur
                 expect = {'top': {name: canon(typ, et)}, 'sp': {name: canon(typ, es)}, 'winner': {'top:' + name: wt, 'sp:' + name: ws}}
                 one('sp-order:builtin', sc, expect, f'last present source of the documented list: top-level {wt}, subproject {ws}',
                     srcvals, popcount(mask))
-        ev.case({'direct': what, 'opt': name, 'rotations': list(rots)}, cls='direct:builtin', n=0)
+        ev.case({'direct': what, 'opt': name, 'rotations': list(rots)}, cls='direct:builtin', n=n)
     elif what == 'project':
         ptype, variant, rots = arg
         for rot in rots:
@@ -1330,14 +1330,13 @@ def _direct_shard(shard: T.Tuple[str, T.Any], ev: Evidence, fails: T.List[Failur
                     continue
                 sc, expect, why, srcvals = cell
                 one(f'sp-order:project:{variant}', sc, expect, why, srcvals, popcount(mask))
-        ev.case({'direct': what, 'ptype': ptype, 'variant': variant, 'rotations': list(rots)}, cls='direct:project', n=0)
+        ev.case({'direct': what, 'ptype': ptype, 'variant': variant, 'rotations': list(rots)}, cls='direct:project', n=n)
     else:
         for B, D, O, k in arg:
             sc, expect, why, _ = derived_bt_cell(B, D, O, k)
             if expect['top'] or expect['sp']:
                 one('derived:buildtype', sc, expect, why, None, sum(x is not None for x in (B, D, O)))
-        ev.case({'direct': what, 'cells': len(arg)}, cls='direct:derived', n=0)
-    ev.evaluations += n
+        ev.case({'direct': what, 'cells': len(arg)}, cls='direct:derived', n=n)
     ev.add_distinct(nt)
     ev.event('direct_optionstore_cells', n)
     if store_only:
@@ -1499,7 +1498,10 @@ def run(ctx: Ctx) -> None:
             for cross in (False, True):
                 if cross and (ptype not in cross_ptype or variant in ('none', 'yield-none', 'yield-difftype')):
                     continue
-                for ms in chunks(list(range(256)), 256 if variant.endswith('none') else 64):
+                allm = list(range(256))
+                if ctx.quick and variant == 'yield-difftype':
+                    allm = allm[ctx.seed % 2::2]      # the direct OptionStore pass covers all of them
+                for ms in chunks(allm, 256 if variant.endswith('none') else 64):
                     shards.append((32 if variant.endswith('none') else 64, 'sp_project',
                                    (ptype, variant, rot, ms, cross, (ctx.seed + len(ptype)) % 16)))
     # (b) top-level order
@@ -1521,7 +1523,7 @@ def run(ctx: Ctx) -> None:
         for cs in chunks(pcells, 32):
             shards.append((32, 'derived_prefix', (cs, cross)))
     # (d) validity
-    nper = ctx.n(120, 2000)
+    nper = ctx.n(80, 1500)
     for s in shard_seeds(ctx, 16 if ctx.quick else 32):
         shards.append((nper * 2, 'validity', (s, nper)))
     # (e) per-machine in a cross build
@@ -1565,7 +1567,10 @@ def replay(ctx: Ctx, case: T.Any, doc: dict) -> T.Optional[Failure]:
     if kind == 'probe':
         return run_probe(case['name'], root)
     if kind == 'cell':
-        return check_cell(case['group'], case['scenario'], case['expect'], case['why'], root, case.get('srcvals'), inproc=False)
+        f = check_cell(case['group'], case['scenario'], case['expect'], case['why'], root, case.get('srcvals'), inproc=False)
+        if f is not None and case.get('fixed_sig'):
+            f = Failure(case['fixed_sig'], case, f.msg)      # saved minimal case of a confirmed finding
+        return f
     if kind == 'intro':
         res = run_scenario(case['scenario'], root, inproc=False)
         if res.rc != 0:
